@@ -58,6 +58,11 @@ def run(tier, seed, replay=None):
             prog.c02_expand = True
             cases.append(("c%04d" % i, prog))
             continue
+        if i % 60 == 59:
+            # a state machine near the 16-bit limits: 30-60 thousand states in the font, more than 65535 while it is built
+            prog = gen.gen_big_fsm_program(crng, crng.randint(760, 1400), 52)
+            cases.append(("c%04d" % i, prog))
+            continue
         prog = gen.gen_match_program(crng, size=size)
         if i % 3 == 1:
             gen.add_pos_table_first(crng, prog)      # tables written in another order than the passes run
@@ -135,7 +140,7 @@ def run(tier, seed, replay=None):
         "optional_item_programs": stats["optional_item_programs"],
         "evaluations": passes_checked,
         "distinct_nontrivial": len(distinct),
-        "rule": "generated substitution programs (overlapping/nested/duplicate classes, rules of mixed length and pre-context, insertions, deletions; one case in eight has optional items, expanded by the proved model of the expansion); one evaluation = one pass whose decoded FSM was certified against the IR rules for ALL glyph strings; distinct = distinct (rules,rows,cols,labelled) shapes",
+        "rule": "generated substitution programs (overlapping/nested/duplicate classes, rules of mixed length and pre-context, insertions, deletions; one case in eight has optional items, expanded by the proved model of the expansion; one in sixty has a state machine of 30-60 thousand states); one evaluation = one pass whose decoded FSM was certified against the IR rules for ALL glyph strings; distinct = distinct (rules,rows,cols,labelled) shapes",
         "samples": samples,
         "exhaustive": False,
     })
